@@ -106,6 +106,40 @@ func bigV4() []byte {
 	return append(w, 255)
 }
 
+// hdr: the fixed part of a container option, its octets depending on the level (so that no two levels are equal);
+// for the IA Prefix layout (25 octets) the prefix length stays within 0..128
+func hdr(size, level int) []byte {
+	h := make([]byte, size)
+	for i := range h {
+		h[i] = byte(level>>(8*(i%3))) ^ byte(i*29)
+	}
+	if size == 25 {
+		h[8] = byte(level % 129)
+	}
+	return h
+}
+
+// nest: container options (code, fixed-part size) nested in one another, cycling through kinds, up to n octets
+func nest(n int, kinds [][2]int) []byte {
+	v := []byte{}
+	for l := 0; ; l++ {
+		k := kinds[l%len(kinds)]
+		if len(v)+4+k[1] > n {
+			return v
+		}
+		v = tlv(k[0], append(hdr(k[1], l), v...))
+	}
+}
+
+// siblings: options of one code with a fixed part of the given size, every one different, up to n octets
+func siblings(n, code, size int) []byte {
+	var v []byte
+	for l := 0; len(v)+4+size <= n; l++ {
+		v = append(v, tlv(code, hdr(size, l+1))...)
+	}
+	return v
+}
+
 func msg6(opts []byte) []byte { return append([]byte{1, 0xa, 0xb, 0xc}, opts...) }
 
 type family struct {
@@ -274,6 +308,31 @@ var families = []family{
 			v = tlv(97, v)
 		}
 		return msg6(v)
+	}},
+	// every container option nested in itself (and identity associations in their address/prefix options), not only
+	// the ones above: IA_NA (3), IA_PD (25), IA Prefix (26), and IA_PD / IA Prefix alternating as in a real delegation
+	{"iana-nesting", "v6", true, func(n int) []byte { return msg6(nest(n-4, [][2]int{{3, 12}})) }},
+	{"iapd-nesting", "v6", true, func(n int) []byte { return msg6(nest(n-4, [][2]int{{25, 12}})) }},
+	{"iaprefix-nesting", "v6", true, func(n int) []byte { return msg6(nest(n-4, [][2]int{{26, 25}})) }},
+	{"iapd-iaprefix-nesting", "v6", true, func(n int) []byte { return msg6(nest(n-4, [][2]int{{25, 12}, {26, 25}})) }},
+	{"iana-iaaddr-nesting", "v6", true, func(n int) []byte { return msg6(nest(n-4, [][2]int{{3, 12}, {5, 24}})) }},
+	{"iaprefix-nesting-broken", "v6", true, func(n int) []byte {
+		v := []byte{0, 8, 0, 1, 0}
+		for len(v)+29 <= n-4 {
+			v = tlv(26, append(hdr(25, len(v)), v...))
+		}
+		return msg6(v)
+	}},
+	// many siblings that all differ (distinct IAIDs, addresses, prefixes): what a duplicate check or an index over
+	// the siblings would have to work through
+	{"iana-siblings", "v6", false, func(n int) []byte { return msg6(siblings(n-4, 3, 12)) }},
+	{"iata-siblings", "v6", false, func(n int) []byte { return msg6(siblings(n-4, 4, 4)) }},
+	{"iapd-siblings", "v6", false, func(n int) []byte { return msg6(siblings(n-4, 25, 12)) }},
+	{"iaaddr-siblings", "v6", false, func(n int) []byte {
+		return msg6(tlv(3, append(make([]byte, 12), siblings(n-20, 5, 24)...)))
+	}},
+	{"iaprefix-siblings", "v6", false, func(n int) []byte {
+		return msg6(tlv(25, append(make([]byte, 12), siblings(n-20, 26, 25)...)))
 	}},
 	{"minimal-options", "v6", false, func(n int) []byte {
 		b := []byte{1, 1, 2, 3}
